@@ -46,7 +46,8 @@ func c12Ops() []histOp {
 		// faulting steps
 		{"read-absent", Print("P.absent"), true}, {"read-other-digit-script", "P.\u0995\u09e8 = %f; " + Print("P.\u09952"), true}, {"read-other-case", "P.Name = %f; " + Print("P.name"), true}, {"read-on-nil", Print("T.k"), true}, {"read-on-array", Print("arr.k"), true}, {"read-on-number", Print("(5).k"), true}, {"read-on-string", Print(`"s".k`), true},
 		{"write-on-nil", "T.k = %f;", true}, {"write-on-array", "arr.k = %f;", true},
-		{"delete-absent", del("P", `"absent"`), true}, {"delete-twice", "P.dd = %f; " + del("P", `"dd"`) + " " + del("P", `"dd"`), true},
+		{"delete-absent", del("P", `"absent"`), true}, {"delete-dotted-path", "P.db = {host: %f, port: %f}; " + del("P", `"db.host"`), true}, {"delete-empty-name", "P.e1 = %f; " + del("P", `""`), true},
+		{"delete-name-with-blank", "P.e2 = %f; " + del("P", `"e2 "`), true}, {"delete-other-case", "P.e3 = %f; " + del("P", `"E3"`), true}, {"delete-bracketed", "P.list = [%f]; " + del("P", `"list[0]"`), true}, {"delete-twice", "P.dd = %f; " + del("P", `"dd"`) + " " + del("P", `"dd"`), true},
 		{"delete-nonstring-key", del("P", "5"), true}, {"delete-nil-key", del("P", "nil"), true}, {"delete-on-array", del("arr", `"k"`), true},
 		{"keys-on-array", Print(BI("keys", "arr")), true}, {"values-on-nil", Print(BI("values", "T")), true},
 	}
@@ -99,6 +100,10 @@ func c12Run(c *Ctx) {
 	for _, src := range []string{
 		// literals are fresh per evaluation; two {} are different objects
 		Lines(Var("a", "{}"), Var("b", "{}"), "a.x = 1;", Print("a"), Print("b"), Fun("mk", "", " "+Ret("{n: 0}")+" "), Var("p", "mk()"), Var("q", "mk()"), "p.n = 5;", Print("p"), Print("q")),
+		// nested literals are fresh per evaluation too, however constant they look: a constructor called twice, a loop body
+		Lines(Fun("rec", "", " "+Ret(`{name: "x", opts: {depth: 1, tags: {a: 1}}, list: [{n: 0}]}`)+" "), Var("r1", "rec()"), Var("r2", "rec()"), "r1.opts.depth = 9;", Print("r2.opts.depth"), BI("delete", "r1.opts", `"tags"`)+";", "r1.list[0].n = 5;", Print("r2"), Print("r1"), Print("rec()")),
+		Lines(Var("all", "[]"), For(Var("i", "0"), "i < 3", "i = i + 1", "{ "+Var("o", "{id: 0, pos: {x: 0, y: 0}}")+" o.id = i; o.pos.x = i * 10; all = "+BI("append", "all", "o")+"; }"), Print("all"), "all[0].pos.y = 7;", Print("all[1].pos"), Print("all[2].pos")),
+		Lines(Fun("defaults", "", " "+Ret("{a: {}, b: {k: -1}, c: [{}]}")+" "), Var("d1", "defaults()"), "d1.a.added = 1; d1.b.k = 2;", Var("d2", "defaults()"), Print("d2"), Print("d1"), Print(BI("keys", "d2.a")), Print(BI("values", "d2.b"))),
 		// literal with distinct keys yields exactly its properties
 		Lines(Var("o", "{a: 1, b: 2, c: 3, d: 4, e: 5, f: 6}"), Print("o"), Print(BI("keys", "o")), Print(BI("values", "o")), Print("o.a + o.b + o.c + o.d + o.e + o.f")),
 		// listing twice, then after a write, then after a delete
@@ -118,7 +123,7 @@ func c12Run(c *Ctx) {
 func init() {
 	register(&CheckDef{
 		ID:   "C12",
-		Rule: "histories over three object variables with shared ancestry (aliases, an array and an outer object holding them, parameter-writing and parameter-deleting functions) and the key pool {k, ক, x1, মান, ...}: 33 non-faulting step kinds (alias, literals with 0/2/3/6 keys and nested, write new / existing / nil-valued / object-valued property directly, through a parameter, an array element, an outer object; write-then-delete directly, through a parameter, with a computed key, of a nil-valued property; reads) (incl. names differing only in letter case or digit script) and 16 faulting step kinds (read absent, . on nil/array/number/string, write on non-object, delete absent / twice / non-string key / non-object, listings of non-objects); every history of <=2 steps, every 7th of <=3 (quick) / all of <=4 (thorough), each also ended by every faulting step; random histories of 4-34 steps. After every step every live object is printed together with its key list and value list, each listing twice in a row; every program is executed 3 times (hash-iteration order is the schedule). Listings may come in any order but all listings of one unmodified object must agree position-wise (keys with values). Compared with refborno's pure map model. Non-trivial = distinct decided history.",
+		Rule: "histories over three object variables with shared ancestry (aliases, an array and an outer object holding them, parameter-writing and parameter-deleting functions) and the key pool {k, ক, x1, মান, ...}: 33 non-faulting step kinds (alias, literals with 0/2/3/6 keys and nested, write new / existing / nil-valued / object-valued property directly, through a parameter, an array element, an outer object; write-then-delete directly, through a parameter, with a computed key, of a nil-valued property; reads) (incl. names differing only in letter case or digit script) and 21 faulting step kinds (read absent, . on nil/array/number/string, write on non-object, delete absent / twice / non-string key / non-object, listings of non-objects); every history of <=2 steps, every 7th of <=3 (quick) / all of <=4 (thorough), each also ended by every faulting step; random histories of 4-34 steps. After every step every live object is printed together with its key list and value list, each listing twice in a row; every program is executed 3 times (hash-iteration order is the schedule). Listings may come in any order but all listings of one unmodified object must agree position-wise (keys with values). Compared with refborno's pure map model. Non-trivial = distinct decided history.",
 		Assumptions: []string{"the order of a key/value listing is not pinned, only its consistency; what কি_রিমুভ returns is not pinned"},
 		Run:         c12Run,
 		Judge:       c12Judge,
